@@ -482,6 +482,14 @@ fn run_closure(queue: &[(String, String, String)], st: &mut Stats, fails: &mut V
                         st.closure_baseline_broken += 1;
                     } else {
                         let first: String = e.lines().filter(|l| l.starts_with("error")).take(3).collect::<Vec<_>>().join(" | ");
+                        // region of known finding vtable_types_without_methods (input-defined): --vtable-generation, a --generate
+                        // list without `methods`, a class with virtual methods; the only errors are unresolved type names
+                        let gen_without_methods = input.split("\"--generate\",\"").nth(1).map_or(false, |t| !t.split('"').next().unwrap_or("").split(',').any(|x| x == "methods"));
+                        if input.contains("\"--vtable-generation\"") && gen_without_methods && input.contains("virtual ")
+                            && e.lines().filter(|l| l.starts_with("error[")).all(|l| l.contains("E0425") || l.contains("E0412")) {
+                            st.known("vtable_types_without_methods", format!("{first}; input {}", &input[..input.len().min(1200)]));
+                            continue;
+                        }
                         fails.push(Failure { kind: "oracle-closure", detail: format!("allow-listed bindings do not compile on their own although the full bindings do: {first}"), input: input.clone() });
                     }
                 }
